@@ -307,6 +307,23 @@ def mk_grid(m, kind):
     if kind == "lonlat":
         return ux.Grid.from_topology(np.array(lon), np.array(lat), t, fill_value=FILL)
     x = np.array([p[0] for p in m.nodes]); y = np.array([p[1] for p in m.nodes]); z = np.array([p[2] for p in m.nodes])
+    if kind == "edges":
+        # a source that ships its own edge table in arbitrary order and orientation
+        pairs = sorted({(min(a, b), max(a, b)) for f in m.faces for a, b in zip(f, f[1:] + f[:1])})
+        pairs = [list(p) if i % 2 else [p[1], p[0]] for i, p in enumerate(pairs)]
+        k = len(pairs) // 3
+        pairs = pairs[k:] + pairs[:k]
+        pairs.reverse()
+        return ux.Grid.from_topology(np.array(lon), np.array(lat), t, fill_value=FILL,
+                                     edge_node_connectivity=np.array(pairs, dtype=np.intp))
+    if kind == "cart":
+        # a source that ships Cartesian node coordinates only, on a sphere of radius 2.5
+        import xarray as xr
+        ds = xr.Dataset()
+        for nm, v in (("node_x", x), ("node_y", y), ("node_z", z)):
+            ds[nm] = xr.DataArray(2.5 * v, dims=["n_node"])
+        ds["face_node_connectivity"] = xr.DataArray(t, dims=["n_face", "n_max_face_nodes"])
+        return ux.Grid.from_dataset(ds, source_grid_spec="Cartesian Source")
     return ux.Grid.from_topology(np.array(lon), np.array(lat), t, fill_value=FILL, node_x=x, node_y=y, node_z=z)
 
 
@@ -365,7 +382,8 @@ def model_line(gets_per_op):
 def run_history(ck, meshes, kinds, hist, refs, g0, known_set, stats):
     """hist: list of (target index, op, gets). Returns list of per-op expected model positions."""
     grids = [mk_grid(m, k) for m, k in zip(meshes, kinds)]
-    extra = [({"node_x", "node_y", "node_z"} if k == "xyz" else set()) for k in kinds]
+    extra = [({"node_x", "node_y", "node_z"} if k in ("xyz", "cart") else ({"edge_node_connectivity"} if k == "edges" else set()))
+             for k in kinds]
     case = {"meshes": [{"nodes": m.nodes, "faces": m.faces} for m in meshes], "kinds": kinds,
             "history": [[t, list(op)] for t, op, _ in hist]}
     impl_sets = [[] for _ in grids]
@@ -413,7 +431,12 @@ def run_history(ck, meshes, kinds, hist, refs, g0, known_set, stats):
             groups, unknown, partial = ds_groups(gg, extra[gi])
             if kinds[gi] == "xyz":
                 groups.discard("NXYZ")
-            impl_sets[gi].append(None if raised[gi] else sorted(groups))
+            if kinds[gi] == "edges":
+                groups.discard("EN")
+                if "edge_node_connectivity" in gg._ds and \
+                        not same(arr(gg._ds["edge_node_connectivity"].values), refs[gi].var("edge_node_connectivity")):
+                    ck.fail("source_variable_changed", dict(case, failing_step=step), dict(info, var="edge_node_connectivity", grid=gi))
+            impl_sets[gi].append(None if (raised[gi] or kinds[gi] == "cart") else sorted(groups))
             if unknown or partial:
                 ck.fail("unexpected_variables", dict(case, failing_step=step), dict(info, names=",".join(unknown + partial)))
             for name in map(str, gg._ds.variables):
@@ -426,9 +449,11 @@ def run_history(ck, meshes, kinds, hist, refs, g0, known_set, stats):
                 except Exception as ex:
                     ck.fail("stored_variable_unreadable", dict(case, failing_step=step), dict(info, var=name), detail=repr(ex))
             # source variables must never change either
-            for name, want in (("node_lon", refs[gi].var("node_lon")), ("node_lat", refs[gi].var("node_lat")),
-                               ("face_node_connectivity", refs[gi].var("face_node_connectivity"))):
-                if not same(arr(gg._ds[name].values), want):
+            srcnames = ("node_x", "node_y", "node_z", "face_node_connectivity") if kinds[gi] == "cart" else \
+                       ("node_lon", "node_lat", "face_node_connectivity")
+            for name in srcnames:
+                want = refs[gi].var(name)
+                if name not in gg._ds or not same(arr(gg._ds[name].values), want):
                     ck.fail("source_variable_changed", dict(case, failing_step=step), dict(info, var=name, grid=gi))
     return case, impl_sets
 
@@ -503,7 +528,7 @@ def main(ck):
     for hi in range(n_hist):
         two = rng.random() < 0.35
         meshes = [meshgen.gen_mesh(rng, max_ops=rng.choice([3, 6, 10]), partial=rng.random() < 0.3) for _ in range(2 if two else 1)]
-        kinds = [rng.choice(["lonlat", "lonlat", "xyz"]) for _ in meshes]
+        kinds = [rng.choice(["lonlat", "lonlat", "xyz", "cart", "edges"]) for _ in meshes]
         refs = [Ref(m, k) for m, k in zip(meshes, kinds)]
         n = rng.choice([1, 2, 3, 3, 5, 8, 14]) if ck.tier == "quick" else rng.choice([1, 2, 3, 5, 8, 14, 30])
         hist = []
@@ -543,7 +568,7 @@ def main(ck):
             for step, gets in enumerate(ml):
                 nops = max(1, len(gets))
                 pos += nops
-                mset = sorted(set(mo[pos - 1]) - ({"NXYZ"} if kind == "xyz" else set())) if mo else []
+                mset = sorted(set(mo[pos - 1]) - ({"NXYZ"} if kind == "xyz" else ({"EN"} if kind == "edges" else set()))) if mo else []
                 if isets[step] is None:
                     break                       # an operation raised on this grid: variable sets no longer comparable
                 iset = sorted(isets[step])
